@@ -1781,6 +1781,8 @@ def random_cycle_case(rng: random.Random) -> dict:
     hs = _cycle_handlers(rng, daemons_real=False)
     lv, av = rng.choice(VALS + [""]), rng.choice(VALS + [""])
     nv, ov = rng.choice(VALS + FALSY), rng.choice(VALS + [NOOLD, NOOLD] + FALSY)
+    if rng.random() < 0.3:
+        ov = nv                      # nothing changed since the last-handled state: no-op / resuming causes
     resumed = [h["id"] for h, kind in hs if kind == "resume" and rng.random() < 0.4]
     return {"handlers": hs, "label": lv, "annotation": av, "field": nv, "stored": ov,
             "event": rng.choice(["ADDED", "MODIFIED", "MODIFIED", None, None, "DELETED"]),
